@@ -78,10 +78,12 @@ impl<T: Bounded> BVH<T> {
         // Nodos pendientes
         let mut pending: Vec<TreeElement<T>> = Vec::new();
         // Nodos procesados (2*n-1 nodos con n terminales)
-        let expected_num_nodes = if elements.is_empty() {
+        // Se necesita al menos un elemento por nodo terminal para que la partición termine
+        let max_num_elements = max_num_elements.max(1);
+        let expected_num_nodes = if elements.len() > max_num_elements {
             2 * (elements.len() / max_num_elements) - 1
         } else {
-            0
+            1
         };
         let mut node_list: Vec<TreeElement<T>> = Vec::with_capacity(expected_num_nodes);
 
@@ -136,6 +138,13 @@ impl<T: Bounded> BVH<T> {
         // Al final del proceso contiene el nodo raíz
         let mut completed: BTreeMap<NodeId, BVHNode<T>> = BTreeMap::new();
 
+        // Árbol formado por un único nodo terminal (sin nodos intermedios)
+        if let [TreeElement(_, Leaf, _, None, _)] = node_list.as_slice() {
+            let elements = node_list.pop().and_then(|e| e.4).unwrap_or_default();
+            let aabb = elements.aabb();
+            return Self::new(Some(BVHNode::Leaf { aabb, elements }));
+        }
+
         // Vamos añadiendo los nodos que tenemos a sus elementos padre y
         // a medida que los completamos los añadimos a sus respectivos padres
         while node_list.len() > 1 {
@@ -186,7 +195,21 @@ impl<T: Bounded> BVH<T> {
     }
 
     /// Divide lista de elementos en dos partes usando el centroide en el eje más largo como plano divisor
+    ///
+    /// Si todos los elementos quedan al mismo lado (p.e. centroides coincidentes) se divide
+    /// la lista por la mitad, de modo que ambas partes son siempre menores que la original
     fn partition_elements_by_centroid(elements: Vec<T>) -> (Vec<T>, Vec<T>) {
+        let (mut left, mut right) = Self::split_elements_by_centroid(elements);
+        if left.is_empty() && right.len() > 1 {
+            left = right.split_off(right.len() / 2);
+        } else if right.is_empty() && left.len() > 1 {
+            right = left.split_off(left.len() / 2);
+        }
+        (left, right)
+    }
+
+    /// Divide lista de elementos en dos partes según la posición de su centroide respecto al centroide medio
+    fn split_elements_by_centroid(elements: Vec<T>) -> (Vec<T>, Vec<T>) {
         let aabb = elements.aabb();
         let dim = aabb.max.coords - aabb.min.coords;
         let len = elements.len() as f32;
